@@ -405,6 +405,32 @@ func runC18(c *core.Ctx) {
 			c.Violate("C18/"+t.tag+"/beta-on-reject", "hash returned together with a rejection", cas, "", nil)
 		}
 	})
+	// public keys of another length than 32 bytes (the code documents a panic; a panic or a rejection are both fine, an
+	// acceptance is not): too short, and a valid key followed by junk together with the proof its holder would compute for a
+	// verifier that hashes the whole string
+	for si := 0; si < 4; si++ {
+		seed := bytes.Repeat([]byte{byte(0x31 + si)}, 32)
+		pk := rvrf.PublicKey(seed)
+		for _, alpha := range [][]byte{nil, []byte("wrong length key")} {
+			honest, _ := rvrf.Prove(seed, alpha)
+			keys := [][]byte{nil, {}, pk[:1], pk[:31]}
+			proofs := [][]byte{honest[:], honest[:], honest[:], honest[:]}
+			for _, junk := range [][]byte{{0}, {0xFF}, pk[:], bytes.Repeat([]byte{7}, 32)} {
+				long := append(append([]byte{}, pk[:]...), junk...)
+				pi, _ := rvrf.ProveWithSalt(seed, long, alpha)
+				keys = append(keys, long, long)
+				proofs = append(proofs, pi[:], honest[:])
+			}
+			for i := range keys {
+				var ok bool
+				core.Catch(func() { ok, _ = vrf.Verify(vrf.PublicKey(keys[i]), alpha, proofs[i]) })
+				c.Eval(1)
+				if ok {
+					c.Violate("C18/wrong-length-key/accepted", fmt.Sprintf("Verify accepted a %d-byte public key %x (alpha %q, proof %x)", len(keys[i]), keys[i], alpha, proofs[i]), map[string]interface{}{"key": fmt.Sprintf("%x", keys[i]), "alpha": string(alpha), "proof": fmt.Sprintf("%x", proofs[i])}, "", nil)
+				}
+			}
+		}
+	}
 	c.Set("accepted_corrupted_or_variant_proofs", accepted.Load())
 	nontriv.Add(accepted.Load())
 	c.Sample(map[string]interface{}{"verify": "Gamma + T4 (order-2 torsion), c and s unchanged", "expect": "judged by the reference (rejected)"})
